@@ -11,7 +11,11 @@ L2: no model involved.  The real merged PE is interpreted in Python (choose ops 
     their switch, muxes select lhs/rhs) under the decoded switch values on small and random data
     inputs and compared with the kernel body's own evaluation, after every merge step, for every
     kernel merged so far (so a later merge that breaks an earlier kernel is seen); the number of
-    decoded values must equal get_true_switches().
+    decoded values must equal get_true_switches(); the SNAXPHSAccelerator built around the merged PE must
+    report exactly get_true_switches() phs_switch_<i> fields and its get_switch_values(kernel) must produce
+    exactly the decoded values, one per field.
+Every call into the implementation is bounded (IMPL_BUDGET seconds of CPU time): a call that does not return
+is reported with its input.  Graphs with more than MAX_MUXES muxes are not decoded (search_mapping is 2^muxes).
 """
 from __future__ import annotations
 
@@ -34,7 +38,7 @@ RULE = ("histories of 1-5 linalg.generic bodies over a common block-argument int
         "addi subi muli andi ori xori maxsi minsi shli / addf subf mulf divf maximumf minimumf (+ negf, select, "
         "cmpi/cmpf/constant in the attribute stream), operands drawn from block arguments and earlier results "
         "(permuted routing, repeated operands, unused arguments), merged in a random order, each decoded against "
-        "every prefix of the merge.  Non-trivial: the merged PE has >= 1 mux or a choose op with >= 2 "
+        "every prefix of the merge (prefixes with more than 16 muxes are not decoded: search_mapping is 2^muxes).  Non-trivial: the merged PE has >= 1 mux or a choose op with >= 2 "
         "alternatives.  Distinct = distinct (history, order) texts")
 TRUSTED_BASE = [
     "Coq 8.16.1 kernel + vm_compute (no native_compute)",
@@ -727,6 +731,27 @@ def block_ordered(pe):
     return True
 
 
+def make_accelerator(pe):
+    """The accelerator object the compiler builds around a merged PE (snaxc/tools/phsc_main.py): it reports the
+    phs_switch_<i> setup fields (from get_true_switches) and produces the switch values of a kernel."""
+    from xdsl.ir.affine import AffineMap
+    from snaxc.accelerators.snax_phs import SNAXPHSAccelerator
+    from snaxc.phs.template_spec import TemplateSpec
+    one = AffineMap.identity(1)
+    return SNAXPHSAccelerator(pe, TemplateSpec((one,), (one,), (4,)))
+
+
+def switch_value_ints(vals):
+    """get_switch_values returns [(ops, value)]: the integer each value is defined as"""
+    out = []
+    for ops, v in vals:
+        c = v.owner
+        if c.name != "arith.constant" or all(c is not o for o in ops):
+            raise ConvError("switch value is not one of the returned constants")
+        out.append(c.value.value.data)
+    return out
+
+
 def check_history(rng, texts, order, ninputs=None):
     """Runs the real encode/append/decode over the history, after every merge step decodes every kernel merged so
     far and evaluates.  Returns (failures, info)."""
@@ -773,6 +798,14 @@ def check_history(rng, texts, order, ninputs=None):
             # the implementation's search is 2^muxes: not decoded (later steps only add muxes)
             info["skipped_muxes"] = True
             break
+        acc, err = guarded(make_accelerator, G)
+        if err:
+            fails.append(dict(what="SNAXPHSAccelerator cannot be built around the merged PE", step=step, detail=err, klass=None))
+            return fails, info
+        nfields = [f for f in acc.fields if f.startswith("phs_switch_")]
+        if nfields != [f"phs_switch_{i}" for i in range(tsw)] or list(acc.phs_switch_fields) != nfields:
+            fails.append(dict(what="switch fields reported for the hardware", step=step,
+                              detail=dict(fields=list(acc.fields), true_switches=tsw), klass=None))
         for j in range(step + 1):
             genj = parse_generic(texts[order[j]])
             gj = real_encode(genj)
@@ -789,6 +822,14 @@ def check_history(rng, texts, order, ninputs=None):
             if len(sw) != tsw:
                 fails.append(dict(what="switch count", step=step, kernel=j, detail=dict(values=list(sw), true_switches=tsw),
                                   klass=None))
+                continue
+            # the values the accelerator puts into the accfg.setup, one per reported phs_switch_<i> field
+            vals, err = guarded(lambda: switch_value_ints(acc.get_switch_values(genj)))
+            if err or vals != list(sw):
+                fails.append(dict(what="switch values produced for the setup differ from the decoded ones / the "
+                                       "reported fields", step=step, kernel=j,
+                                  detail=dict(decoded=list(sw), produced=vals if not err else err,
+                                              fields=list(acc.phs_switch_fields)), klass=None))
                 continue
             types = [str(a.type) for a in gj.data_operands()]
             for ins in data_inputs(rng, types):
